@@ -91,6 +91,10 @@ impl LocalFunction {
                 InstrLocId::new(pos as u32)
             };
             validator.op(pos, &inst)?;
+            if ctx.controls.is_empty() {
+                // the validator only reports this in `finish`; nothing may follow the final `end`
+                anyhow::bail!("operators remaining after end of function");
+            }
             append_instruction(&mut ctx, inst, loc);
             instruction_mapping.insert(pos - code_address_offset, loc);
         }
